@@ -19,6 +19,7 @@ import (
 	"pgregory.net/rapid"
 
 	opchildtypes "github.com/initia-labs/OPinit/x/opchild/types"
+	ophosttypes "github.com/initia-labs/OPinit/x/ophost/types"
 
 	"verifharness/evid"
 	"verifharness/henv"
@@ -712,9 +713,12 @@ func c07Run(rt *rapid.T, rec *evid.Rec, withFaults bool) {
 	faults := 0
 	if withFaults {
 		for k := 1; k <= calls; k++ {
-			for _, pm := range []bool{false, true} {
+			for mode, pm := range []bool{false, true, true} {
 				branchL2(l2, func(b *henv.L2) {
 					b.Fault.Reset(k, pm)
+					if mode == 2 {
+						b.Fault.ResetAfter(k) // the keeper call is carried out, then panics
+					}
 					r := b.DeliverWithGas(cs.msg, limit)
 					fired := b.Fault.Fired
 					b.Fault.Reset(0, false)
@@ -759,4 +763,47 @@ func TestC07Rapid(t *testing.T) {
 func TestC07Faults(t *testing.T) {
 	rec := evid.For("C07")
 	runRapid(t, 150, 2500, func(rt *rapid.T) { c07Run(rt, rec, true) })
+}
+
+// TestC07Denoms: L1 deposits of zero and positive amounts under well-formed, odd and malformed denom
+// strings, to good and bad recipients, with and without hook data: whatever L1 accepts must be
+// finalizable on L2 (credited or refunded) and leave the bridge live.
+func TestC07Denoms(t *testing.T) {
+	rec := evid.For("C07")
+	denoms := []string{"uinit", "ibc/27394FB092D2ECCD56123C74F36E4C1F926001CEADA9CA97EA622B25F41E5EB2", "Mixed/Case-denom.x_1", "a" + strings.Repeat("b", 127), "abc",
+		"1 not/a denom!", "ab", "a" + strings.Repeat("b", 128), "", "uinit ", "u,init", "9start", "l2/00", "ünit"}
+	runRapid(t, 200, 3000, func(rt *rapid.T) {
+		c := rec.Begin()
+		c.Class("denoms")
+		tc := newTwoChain(tcOpts{nExecutors: 1, fault: true})
+		for _, u := range tc.users {
+			tc.l2.Fund(u.Addr, coinOf("stake", 1000))
+		}
+		n := rapid.IntRange(1, 3).Draw(rt, "deposits")
+		for i := 0; i < n; i++ {
+			denom := rapid.SampledFrom(denoms).Draw(rt, "denom")
+			amt := math.NewInt(int64(rapid.SampledFrom([]int{0, 0, 1, 1000}).Draw(rt, "amount")))
+			to := rapid.SampledFrom([]string{tc.users[1].Str, tc.users[2].Str, "not-an-address"}).Draw(rt, "to")
+			var data []byte
+			if rapid.Bool().Draw(rt, "data") {
+				data = []byte{0xff, 0x01}
+			}
+			m := &ophosttypes.MsgInitiateTokenDeposit{To: to, Amount: sdk.Coin{Denom: denom, Amount: amt}, Data: data}
+			accepted, err := c07EndToEnd(tc, m)
+			if err != nil {
+				rt.Fatalf("C07 violated: %v", err)
+			}
+			if accepted {
+				c.Class("denoms/accepted-by-l1")
+				if sdk.ValidateDenom(denom) != nil {
+					c.Class("denoms/malformed-denom-accepted-by-l1")
+				}
+			} else {
+				c.Class("denoms/refused-by-l1")
+			}
+		}
+		c.NonTrivial()
+		c.Shape(fmt.Sprintf("denoms/%d", n))
+		c.Done()
+	})
 }
